@@ -13,6 +13,12 @@ META = {
  "outside": ["histories longer than the stated number of operations", "chains longer than the history length",
              "lists longer than LMAX"],
 }
+MANIFEST = {
+ "level_text": "Bounded model checking of the real phashtable.c/plist.c: every history of N operations with arbitrary 64-bit key/value bit patterns (incl. all keys in one bucket) is compared against an association-list reference by the SAT solver; the hash arithmetic is decided separately for all 2^64 pointer values with signed-overflow checks on. Right level because the bugs live in rare key patterns and chain positions that sampling misses, while the state is small enough to decide exhaustively within the bound.",
+ "level_note": "Trusted: CBMC 6.11 and its SAT back end; allocator ledger model; hash replaced by a consistent uninterpreted function in history queries (real function checked separately); bucket array shrunk to 5 via the PLIBSYS_VERIF hook for sweep queries. Bounds: histories <=3 (quick) / <=4 (thorough) operations, lists <=3/5 elements.",
+ "technique": "CBMC bounded symbolic execution of real units vs. reference model; UF abstraction of the hash kernel verified separately",
+ "design_ref": "DESIGN.md §3 C15",
+}
 def uw(n, size):
     c = n + 2
     return {"harness.0": n + 1, "harness.1": n + 1, "ref_find.0": n + 1, "count_in_list.0": c + 1, FIND + ".0": c, CALC + ".0": n + 4,
